@@ -222,11 +222,17 @@ fn assumptions_for(prop: &str) -> Vec<&'static str> {
     }
 }
 
+/// delay mode of generated runs: 1 = seeded random delays at every site; `VERIF_DELAY_MODE_RUN=1xx`
+/// targets site xx on every call (sensitivity experiments)
+fn run_delay_mode() -> u64 {
+    std::env::var("VERIF_DELAY_MODE_RUN").ok().and_then(|s| s.parse().ok()).unwrap_or(1)
+}
+
 fn run_property(prop: &'static str, tier: &str, seed: u64) -> i32 {
     let mut ctx = Ctx::new(prop, tier, seed);
     match prop {
         "C01" | "C07" | "C08" | "C09" | "C10" | "C18" => {
-            core::set_delay_mode(1, seed);
+            core::set_delay_mode(run_delay_mode(), seed);
             for (s, q, t, w) in s_subs(prop) {
                 let n = ctx.n(q, t);
                 ctx.run(&s, n, w);
@@ -271,7 +277,7 @@ fn run_property(prop: &'static str, tier: &str, seed: u64) -> i32 {
             core::set_delay_mode(0, seed);
         }
         "C02" | "C03" | "C04" | "C05" | "C06" | "C14" | "C16" | "C17" => {
-            core::set_delay_mode(1, seed);
+            core::set_delay_mode(run_delay_mode(), seed);
             for (s, q, t, w) in m_subs(prop) {
                 let n = ctx.n(q, t);
                 ctx.run(&s, n, w);
@@ -292,7 +298,7 @@ fn run_property(prop: &'static str, tier: &str, seed: u64) -> i32 {
             }
         }
         "C11" | "C19" => {
-            core::set_delay_mode(1, seed);
+            core::set_delay_mode(run_delay_mode(), seed);
             for (s, q, t, w) in f_subs(prop) {
                 let n = ctx.n(q, t);
                 ctx.run(&s, n, w);
@@ -300,7 +306,7 @@ fn run_property(prop: &'static str, tier: &str, seed: u64) -> i32 {
             core::set_delay_mode(0, seed);
         }
         "C15" => {
-            core::set_delay_mode(1, seed);
+            core::set_delay_mode(run_delay_mode(), seed);
             core::TIME_SITES.store(true, std::sync::atomic::Ordering::SeqCst);
             let n = ctx.n(3000, 60_000);
             ctx.run(&TSub { mt: None }, n, 5);
